@@ -102,8 +102,7 @@ namespace occa {
     if (!modeDevice) {
       return;
     }
-    modeDevice->removeDeviceRef(this);
-    if (modeDevice->modeDevice_t::needsFree()) {
+    if (modeDevice->removeDeviceRef(this)) {
       free();
     }
   }
